@@ -85,6 +85,22 @@ PROPS = {
     },
 }
 
+PROPS['C10'] = {
+    'units': ['rename', 'lists'],
+    'functions': ['unifiable.rs::Unifiable::recreate_variables', 'unifiable.rs::recreate_vars_terms', 'unifiable.rs::recreate_vars_goals',
+                  'goal.rs::Goal::recreate_variables', 'operator.rs::Operator::recreate_variables',
+                  'built_in_predicates.rs::BuiltInPredicate::recreate_variables', 'built_in_predicates.rs::BuiltInPredicate::new',
+                  'rule.rs::Rule::recreate_variables', 's_linked_list.rs::make_linked_list'],
+    'kani': {'quick': ['c10_counter_contract'], 'thorough': []},
+    'oracles': {'*': 'c10_rename'},
+    'not_covered': [
+        "'different names get different ids' and 'no fresh variable is in use elsewhere': ids come from next_id(); its counter contract (successive, non-zero, increasing) is proved by Kani, the composition with the map invariant is not machine-checked",
+        'the fallback_id restore in the clause loop of next_solution (solver, outside reach)',
+        'get_rule / make_query: HashMap<String, Vec<Rule>> lookup by &str and the static-mut reset are outside the Verus unit; make_query\'s reset is covered by C22',
+        'termination of the recursive renaming (exec_allows_no_decreases_clause)',
+    ],
+}
+
 PROPS['C22'] = {
     'units': [],
     'functions': [],
